@@ -93,7 +93,11 @@ func (s *Set[T]) forceSetupOrdered() {
 	fun.Invariant.Ok(s.list == nil)
 	s.list = &List[T]{}
 	for item := range s.hash {
-		s.list.PushBack(item)
+		// index the element, so that a later Delete removes the
+		// item from the list as well.
+		elem := NewElement(item)
+		s.list.Back().Append(elem)
+		s.hash[item] = elem
 	}
 }
 
